@@ -109,6 +109,8 @@ const COMMON_POOL: &[&str] = &["CT0", "CT1", "T", "U", "Task", "ipaddr", "decima
 const ATTR_POOL: &[&str] = &[
     "a", "b", "n", "s", "flag", "ref", "items", "rec", "has space", "if", "in", "true", "Long", "Set", "__cedar", "a-b", "", "a\"b", "\u{e9}", "line\nbreak",
     "\u{1F600}", "context", "principal", "type", "_x1", "9lives", "is", "tab\there", "back\\slash", "'q'", "\u{301}acc", "\0nul",
+    // identifiers padded with what the Cedar lexer skips (a printer that asks "does it PARSE as an identifier" prints them bare)
+    "name ", " id", "pad\t", "\nlead", "c //x", "/*c*/k",
 ];
 const ACTION_POOL: &[&str] = &["view", "edit", "delete", "list all", "", "a\"b", "Action", "\u{1F600}", "x::y", "in", "if", "type", "read-only", "line\nbreak", "appliesTo"];
 const ENUM_ID_POOL: &[&str] = &["red", "green", "x y", "e\"q", "\u{1F600}", "", "a\\b", "\n", "\u{7f}", "\u{301}"];
